@@ -1193,6 +1193,13 @@ func init() {
 					// the process runs, is logged in memory and ends like any other
 					sc.Files = map[string]string{"blocker": "not a directory\n"}
 					p.LogLocation = "blocker/" + p.Name + ".log"
+					if r.P(500) {
+						// or a disk that is full: the file opens and every write fails
+						p.LogLocation = "/dev/full"
+						if r.P(700) {
+							p.RawYAML = "    log_configuration:\n      flush_each_line: true\n"
+						}
+					}
 					ts.Launches[0].Out, ts.Launches[0].ReadErrAt = nil, 0
 					genOutput(r, &ts.Launches[0], p.Name, 0, 130)
 					var keep []Client
